@@ -271,15 +271,22 @@ def r3_resolver(ctx):
             for p in ctx.paths(pb):
                 if ends(p) != "ret":
                     continue
-                d = decision_on(p, lambda t: t[0] == "discr" and call_is(t[1], "rposition"))
+                d = None
+                for e in p:
+                    if e[0] == "switch" and e[2][0] == "discr" and call_is(e[2][1], "rposition"):
+                        d = e[3] if isinstance(e[3], int) else ({0, 1} - set(e[4])).pop() if len(set(e[4])) == 1 and set(e[4]) <= {0, 1} else None
                 cs = [(sym.short(c[2]).split("::")[-1], c) for c in calls(p) if name_is(c[2], "clear", "truncate", "drain", "retain") and ends_with_fields(strip_wrappers(c[3][0]), "bindings")]
                 if d == 0:
-                    arms["none-valid"] = any(n == "clear" or (n == "truncate" and strip_wrappers(c[3][1]) == ("c", "usize", 0)) for n, c in cs)
+                    arms["none-valid"] = arms.get("none-valid", True) and any(n == "clear" or (n == "truncate" and strip_wrappers(c[3][1]) == ("c", "usize", 0)) for n, c in cs)
                 elif d == 1:
-                    arms["some-valid"] = any(n == "truncate" and has_subterm(c[3][1], lambda s2: s2[0] == "pl" and call_is(s2[1], "rposition")) for n, c in cs)
+                    # nothing to drop when the last valid binding is the last one; otherwise truncate right after it
+                    good = [n == "truncate" and has_subterm(c[3][1], lambda s2: s2[0] == "pl" and call_is(s2[1], "rposition")) for n, c in cs]
+                    arms["some-valid"] = arms.get("some-valid", False) or (bool(good) and all(good))
+                    if cs and not all(good):
+                        arms["some-valid:other-edit"] = False
                 else:
                     arms["undecided"] = any(n == "retain" for n, c in cs)
-            ctx.ob("R3", "pop:drops-bindings", bool(arms) and all(arms.values()) and ("undecided" in arms or set(arms) == {"none-valid", "some-valid"}),
+            ctx.ob("R3", "pop:drops-bindings", bool(arms) and all(arms.values()) and ("undecided" in arms or {"none-valid", "some-valid"} <= set(arms)),
                    "when no binding is valid any more all are cleared, otherwise the list is truncated after the last valid one: %s" % arms, config=cfg)
             pc = F.closure("quick_xml::name::NamespaceResolver::pop::{closure#0}")
             ok = False
